@@ -159,7 +159,8 @@ def run_case(key):
                     if minerals is None:
                         F = H.update(m, prm, F, fl, t, t + dt)
                     else:
-                        F = H.pd().update_all(minerals, prm, F, fl.L, (t, t + dt, fl.x))
+                        with H.time_limit():
+                            F = H.pd().update_all(minerals, prm, F, fl.L, (t, t + dt, fl.x))
                 except Exception as e:
                     res["notes"]["rejected_updates"] = res["notes"].get("rejected_updates", 0) + 1
                     res["outcomes"].append("exc:" + type(e).__name__)
